@@ -607,6 +607,8 @@ def eval_map_assign(P, T):
                     return it.ev(e[2][0]) or 910000
                 if nm == 'memset':
                     return it.ev(e[2][0])
+                if nm == 'free':
+                    return 0
                 if nm == 'method_at_offset':
                     return ('ep', 'iterinst', 0)
                 if nm is None:
